@@ -236,6 +236,7 @@ def api_fit(kind, method, data, s, default_exp=False):
             else:
                 f.fit(data, method_smoothing=None)
             ef = np.asarray(f.eigenfunctions.values)
+            api_fit.scores = _natural_scores(f, "NumInt" if method == "covariance" else "InnPro")
             return np.asarray(f.eigenvalues, dtype=float), ef.reshape(ef.shape[0], -1)
         # default_exp: the optional size of the univariate expansions is left to its default
         f = MFPCA(n_components=s, method=method,
@@ -246,7 +247,43 @@ def api_fit(kind, method, data, s, default_exp=False):
         for c in f.eigenfunctions.data:
             a = np.asarray(c.coefficients if hasattr(c, "coefficients") else c.values)
             parts.append(a.reshape(a.shape[0], -1))
+        api_fit.scores = _natural_scores(f, "NumInt" if method == "covariance" else "InnPro")
         return np.asarray(f.eigenvalues, dtype=float), np.hstack(parts)
+
+
+def _natural_scores(f, how):
+    """scores of the training data by the estimator's natural method, or None where it is not defined"""
+    try:
+        sc = np.asarray(f.transform(None, method=how), float)
+        return sc if sc.ndim == 2 and np.all(np.isfinite(sc)) else None
+    except Exception:  # noqa: BLE001
+        return None
+
+
+def score_pairing_monitor(rep, kind, method, s, val, full_val, sc, full_sc, sample):
+    """every score column stays paired with its eigenvalue: when the k-fit's eigenvalues are the first k of the full fit
+    (and simple), its score columns are the first k score columns of the full fit, up to sign"""
+    if sc is None or full_sc is None:
+        return
+    k = len(val)
+    if k == 0 or k > len(full_val) or sc.shape != (full_sc.shape[0], k) or full_sc.shape[1] < k:
+        return
+    scale = float(np.max(np.abs(full_val)))
+    if scale <= 0 or np.max(np.abs(val - full_val[:k])) > 1e-8 * scale:
+        return                                  # another subset was kept (F1): decided by the main comparison
+    gaps = np.abs(np.diff(np.concatenate([full_val[:k], full_val[k:k + 1]])))
+    if len(gaps) and np.min(gaps) < 1e-6 * scale:
+        return                                  # (nearly) repeated eigenvalue: the directions are not determined
+    ss = max(1e-300, float(np.max(np.abs(full_sc))))
+    rep.dist[f"score-pairing/{kind}/{method}"] = rep.dist.get(f"score-pairing/{kind}/{method}", 0) + 1
+    for j in range(k):
+        if val[j] <= 1e-10 * scale:
+            continue
+        dev = min(float(np.max(np.abs(sc[:, j] - full_sc[:, j]))), float(np.max(np.abs(sc[:, j] + full_sc[:, j]))))
+        if dev > 1e-6 * ss:
+            rep.violation(f"{kind}({method}) n_components={s}: score column {j} is not the score column of eigenvalue {j} of the full "
+                          f"fit (max deviation {dev:.3g}, up to sign)", {**sample, "score_column": j})
+            return
 
 
 def pairing_monitor(rep, data, val, fun, s, grid):
@@ -300,6 +337,7 @@ def api_level(rep, rng, quick):
         for method in ("covariance", "inner-product"):
             try:
                 full_val, full_fun = api_fit(kind, method, data, None, default_exp=(i % 8 == 7))
+                full_sc = api_fit.scores
             except Exception as e:  # noqa: BLE001
                 rep.notes.append(f"{kind}/{method} full fit raised {type(e).__name__}: {e}"[:200])
                 continue
@@ -327,6 +365,8 @@ def api_level(rep, rng, quick):
                 k = len(val)
                 if kind == "UFPCA" and method == "covariance" and grid != "irregular":
                     pairing_monitor(rep, data, val, fun, s, grid)
+                score_pairing_monitor(rep, kind, method, s, val, full_val, api_fit.scores, full_sc,
+                                      {"level": "api", "estimator": kind, "method": method, "grid": grid, "sel": s})
                 if k > len(full_val) or not good[:max(k, 1)].all() or not good.all():
                     # NaN eigenfunctions (division by sqrt(0)) are a C02/C03 matter; compare values only
                     fv = np.where(np.isfinite(full_fun), full_fun, 0.0); fn = np.where(np.isfinite(fun), fun, 0.0)
